@@ -400,6 +400,23 @@ func vcliC09Session(r *verifrt.R, c *verifrt.Case, fpMissing bool) {
 		case a == 18:
 			sc.SendPing(false, [8]byte{1, 2, 3, 4, 5, 6, 7, byte(step)})
 		default:
+			// A late WINDOW_UPDATE for a stream that is over (the server has answered it and
+			// the client has nothing left to send on it): legal (RFC 9113 5.1, "closed"), and it
+			// extends that stream's window only, never the connection's.
+			var over []*vcliStream
+			for _, st := range sh.order {
+				if st.hdrDone && st.respSent && !st.srvReset && (remaining(st) <= 0 || st.errResp || !st.cliCanSend()) {
+					over = append(over, st)
+				}
+			}
+			if len(over) > 0 {
+				st := over[rng.IntN(len(over))]
+				inc := vcliC09Pick[int64](rng, 1, 1000, 70000, 1<<20)
+				if st.win+sh.permWinExtra()+inc <= maxWin {
+					sc.SendWindowUpdate(st.id, uint32(inc))
+					r.Event("late_window_update_on_finished_stream", 1)
+				}
+			}
 		}
 	}
 
